@@ -590,3 +590,56 @@ def r128(ctx, R, rule='R12.8'):
             continue
         n += 1
     R.count(rule, n, 2)
+
+
+def r129(ctx, R):
+    """The compensation that removes a consumer this request created is
+    unconditional: Consumer.delete() reaches the DELETE on every path and
+    has no condition of its own under which it gives up (delete_consumers
+    logs and swallows whatever it raises - a refusal there is a consumer
+    left behind without allocations)."""
+    prog = ctx.prog
+    f = prog.func('placement.objects.consumer:Consumer.delete')
+    # the function and whatever it reaches inside the consumer module
+    reach = [g for g in ctx.cg.reachable([f])
+             if g.module.name == 'placement.objects.consumer']
+    dels = [(g, e) for g in reach for e in ctx.effects.direct.get(g, ())
+            if e.op == 'D' and e.table == 'consumers']
+    raises = [(g, n) for g in reach for n in own_nodes(g.node)
+              if isinstance(n, ast.Raise)]
+    reads = [(g, e) for g in reach for e in ctx.effects.direct.get(g, ())
+             if e.op == 'R']
+    ok = len(dels) == 1 and not raises and not reads
+    if ok:
+        g, e = dels[0]
+        cg_ = cfgmod.cfg_of(g)
+        ok = cg_.must_pass(cfgmod.ENTRY, cfgmod.EXIT, {e.stmt},
+                           normal_only=True)
+        # ... and every function on the way calls the next unconditionally
+        cur = g
+        while ok and cur is not f:
+            callers = [h for h in reach if cur in ctx.cg.callees(h)]
+            if len(callers) != 1:
+                ok = False
+                break
+            h = callers[0]
+            sts = [C.stmt_of(s.node) for s in ctx.cg.calls_in(h)
+                   if cur in s.callees]
+            ok = bool(sts) and cfgmod.cfg_of(h).must_pass(
+                cfgmod.ENTRY, cfgmod.EXIT, set(sts), normal_only=True)
+            cur = h
+    R.ob('R12.9', 'Consumer.delete:unconditional', ok,
+         'Consumer.delete() issues the DELETE on every path: no test, no '
+         'read, no raise of its own stands before it',
+         'deletes=%d raises=%s reads=%d' % (
+             len(dels), ['%s line %d' % (g.name, n.lineno)
+                         for g, n in raises][:3], len(reads)), func=f)
+    R.count('R12.9', 1, 1)
+
+
+_run_c12b = run
+
+
+def run(ctx, R):
+    _run_c12b(ctx, R)
+    r129(ctx, R)
